@@ -37,7 +37,7 @@ pub fn discover_externs() -> Result<Externs, String> {
     if !out.status.success() {
         return Err(format!("cargo build -p probe_deps failed:\n{}", String::from_utf8_lossy(&out.stderr)));
     }
-    let wanted = ["truc_runtime", "vtypes", "serde", "static_assertions"];
+    let wanted = ["truc_runtime", "vtypes", "serde", "static_assertions", "uuid"];
     let mut externs = vec![];
     for line in String::from_utf8_lossy(&out.stdout).lines() {
         let v: serde_json::Value = match serde_json::from_str(line) {
